@@ -4,6 +4,7 @@ import MosnVerif.Lemmas.Downstream.Prov
 import MosnVerif.Lemmas.Downstream.Backoff9
 import MosnVerif.Lemmas.ReplyWrite
 import MosnVerif.Lemmas.ReplyWriteMachine
+import MosnVerif.Lemmas.XHijack
 /-!
 # C03 — every request ends exactly once, with one reply, in bounded time (property theorems only)
 
@@ -519,6 +520,61 @@ example : (terminateB { retryOn := true, numRetries := 1 }
       (List.replicate 12 .work ++ [.upResp 0 503 false false] ++ List.replicate 3 .work)) 418).direct = false ∧
     backoff (reach { retryOn := true, numRetries := 1 } 0 0
       (List.replicate 12 .work ++ [.upResp 0 503 false false] ++ List.replicate 3 .work)) = true := by decide
+
+/-! ## c03t10 — the reply MOSN generates itself exists on the wire, for every xprotocol codec (Model/XHijack.lean) -/
+section XHijack
+open MosnVerif.Model.XHijack
+
+/-- **local_reply_frame_exists**: for every codec, every request id and EVERY http-style code (in particular every code MOSN
+generates: 404, 502, 503, 504, 500, the code of a stream filter's hijack / TerminateStream) the server stream has a frame to
+write: Hijack does not return nil, Mapping / the status map (default branch included) yields a defined protocol status,
+buildHijackResp goes through Mapping and endStream writes a non-nil frame. -/
+theorem local_reply_frame_exists (c : Codec) (reqId code : Nat) : (wire c reqId code).isSome = true :=
+  MosnVerif.Lemmas.XHijack.wire_isSome c reqId code
+
+/-- **local_reply_decodes_and_correlates_partial**: the reply carries the REQUEST's id and both fields fit the codec's wire
+fields (id below 2^idBits when the request's id is, status below 2^statusBits), so the field encoders of the codec models are
+injective on them. Full statement (not proved here): `decode c (encode c reply) = reply` over the byte-level codec models of
+C01 (Model/Bolt, Dubbo, Tars); the byte-level round trip is covered by the correspondence run only (dec=1: MOSN's codec
+decodes the frame with this id and status). -/
+theorem local_reply_decodes_and_correlates_partial (c : Codec) (reqId code : Nat) (r : Reply)
+    (h : wire c reqId code = some r) : r.id = reqId ∧ r.status < 2 ^ statusBits c :=
+  MosnVerif.Lemmas.XHijack.wire_correlates c reqId code r h
+
+example : wire .tars 7 404 = some ⟨7, 4294967292⟩ := by decide
+example : wire .bolt 4294967295 504 = some ⟨4294967295, 7⟩ := by decide
+example : wire .dubbo 5 418 = some ⟨5, 70⟩ := by decide
+
+/-- **mapping_total**: every code maps to a defined protocol status; a code outside the codec's table takes the default
+branch (bolt / boltv2: ResponseStatusUnknown; dubbo: Response_SERVICE_ERROR; dubbo-thrift: the zero value of the unchecked
+map lookup = UNKNOWN_APPLICATION_EXCEPTION; tars: TARSSERVERUNKNOWNERR). -/
+theorem mapping_total (c : Codec) (code : Nat) :
+    (∃ st, status c code = some st) ∧ ((table c).lookup code = none → statusName c code = dflt c) :=
+  ⟨Option.isSome_iff_exists.mp (MosnVerif.Lemmas.XHijack.status_isSome c code), fun h => by simp [statusName, h]⟩
+
+example : statusName .bolt 418 = "ResponseStatusUnknown" ∧ status .bolt 418 = some 3 := by decide
+example : statusName .tars 418 = "TARSSERVERUNKNOWNERR" := by decide
+
+/-- **oneway_never_answered**: a one-way request is never answered, whatever the cause and the code; a heartbeat is answered
+by the stream layer's ack only (never by a hijack reply). -/
+theorem oneway_never_answered (c : Codec) (up : Bool) (reqId code : Nat) :
+    replies c .ow up reqId code = [] ∧ (replies c .hb up reqId code).all (·.1) = true := by
+  constructor <;> rfl
+
+/-- **two_way_answered_once**: a two-way request that MOSN ends itself is answered by exactly one frame -/
+theorem two_way_answered_once (c : Codec) (up : Bool) (reqId code : Nat) : (replies c .tw up reqId code).length = 1 := by
+  unfold replies
+  cases up
+  · have h := local_reply_frame_exists c reqId code
+    cases hw : wire c reqId code with
+    | none => rw [hw] at h; cases h
+    | some r => simp
+  · simp
+
+/-- negation witness (the silence): with a Hijack that returns nil (tars before 3303a3fc8) nothing is written, for every code -/
+example : ∀ code ∈ [404, 502, 503, 504, 500], hijackWith true true .tars 7 code = none := by decide
+
+end XHijack
 
 end MosnVerif.Props.C03
 
